@@ -49,6 +49,7 @@ let parse_cmd (c : string) : cmd =
   | ["rcbg"; ks; t] -> Rc (QBatchGet (nlist ks, pn t))
   | ["rcsc"; s; e; l; t] -> Rc (QScan (pn s, pn e, nat_of_int (int_of_n (pn l)), pn t))
   | ["rcrs"; s; e; l; t] -> Rc (QReverseScan (pn s, pn e, nat_of_int (int_of_n (pn l)), pn t))
+  | ["slh"; s; e; _; m] -> ScanLock (pn s, pn e, pn m)   (* handler-level scan lock: answer computed by handler_scan_lock *)
   | ["dr"; s; e] -> DeleteRange (pn s, pn e)
   | ["ms"; s] -> MvccByStartTs (pn s)
   | _ -> failwith ("unknown command: " ^ c)
@@ -233,8 +234,14 @@ module Oracles = struct
        let sp = resp_s (RPairs (spec_rscan before s e l t rs)) in chk "reverse_mirror" (unchanged && sp = iresp) ("reverse scan answered " ^ iresp ^ ", mirror " ^ sp)
      | ScanLock (s, e, m) ->
        (* the answer lists exactly the locks of the range with start ts <= max, with their primary, type, ttl, for-update ts *)
-       let sp = resp_s (snd (step before (ScanLock (s, e, m)))) in
-       chk "scan_lock_reports_locks" (unchanged && sp = iresp) ("scan-lock answered " ^ iresp ^ ", the locks stored are " ^ sp)
+       (match split ' ' ctxt with
+        | ["slh"; _; _; l; _] ->
+          (* handler-level request: the first `limit` locks (0 = all) of the requested window *)
+          let sp = resp_s (RLocks (handler_scan_lock before N0 N0 s e (nat_of_int (int_of_n (pn l))) m)) in
+          chk "scan_lock_handler" (unchanged && sp = iresp) ("scan-lock request answered " ^ iresp ^ ", the first " ^ l ^ " locks of the window are " ^ sp)
+        | _ ->
+          let sp = resp_s (snd (step before (ScanLock (s, e, m)))) in
+          chk "scan_lock_reports_locks" (unchanged && sp = iresp) ("scan-lock answered " ^ iresp ^ ", the locks stored are " ^ sp))
      | Rc q ->
        (* isolation level RC = the same read on the store with every lock removed *)
        let u = unlocked before in
@@ -325,7 +332,10 @@ let () =
       let c = (try parse_cmd ctxt with e -> (report "MISMATCH" "unparsable-command" ctxt; Get (N0, N0, []))) in
       cmds_txt := ctxt :: !cmds_txt; cmds := c :: !cmds;
       let ((st', d'), r) = dstep (!mst, !mdet) c in
-      let mresp = respd_s r and mdump = dump_s st' in
+      let slh_answer st = (match split ' ' ctxt with
+          | ["slh"; s; e; l; m] -> Some (resp_s (RLocks (handler_scan_lock st N0 N0 (pn s) (pn e) (nat_of_int (int_of_n (pn l))) (pn m))))
+          | _ -> None) in
+      let mresp = (match slh_answer !mst with Some a -> a | None -> respd_s r) and mdump = dump_s st' in
       mst := st'; mdet := d';
       let mddump = detector_s d' in
       let opname = List.hd (split ' ' ctxt) in
@@ -339,8 +349,16 @@ let () =
       if not (iresp = "ok" || iresp = "[ok]" || iresp = "E[]R[]" || iresp = "V(-)" || iresp = "[]" || iresp = "K[]") then seq_nontrivial := true;
       if trace then Printf.printf "TRACE\t%s\timpl=%s\tmodel=%s\timpl_state=%s\tmodel_state=%s\n" ctxt iresp mresp idump mdump;
       if mresp <> iresp then begin incr nmism; report "MISMATCH" "response" ("impl=" ^ iresp ^ "\tmodel=" ^ mresp) end
-      else if mdump <> idump then begin incr nmism; report "MISMATCH" "state" ("impl=" ^ idump ^ "\tmodel=" ^ mdump) end
-      else if mddump <> iddump then begin incr nmism; report "MISMATCH" "detector" ("impl=" ^ iddump ^ "\tmodel=" ^ mddump) end;
+      else if mdump <> idump then begin incr nmism; report "MISMATCH" "state" ("impl=" ^ idump ^ "\tmodel=" ^ mdump) end;
+      (* oracle on the implementation's own detector dump: a finished transaction has no wait-for edges left *)
+      (match c with
+       | Commit (_, s, _) | Rollback (_, s) | Cleanup (_, s, _) ->
+         incr nprops; bump "oracle:deadlock_finish_clears_edges";
+         let pre = hx s ^ ">" in
+         if List.exists (fun e -> String.length e >= String.length pre && String.sub e 0 (String.length pre) = pre) (split ' ' iddump) then begin
+           incr npfail; report "PROPFAIL" "deadlock_finish_clears_edges" ("wait-for edges of the finished transaction remain: " ^ iddump) end
+       | _ -> ());
+      if mresp <> iresp || mdump <> idump then () else if mddump <> iddump then begin incr nmism; report "MISMATCH" "detector" ("impl=" ^ iddump ^ "\tmodel=" ^ mddump) end;
       (* property oracles on the implementation's observables *)
       let ist_before = (try parse_dump !prev_dump with _ -> []) and ist_after = (try parse_dump idump with e -> (report "MISMATCH" "unparsable-dump" idump; [])) in
       if !seq_disc then begin
